@@ -180,7 +180,9 @@ func readAll(ks keystore.ServerKeyStore, id []byte) (sec secrets, errs []error) 
 	return
 }
 
-func (a secrets) all() [][]byte { return append(append(append([][]byte{}, a.priv...), a.sym...), a.hm...) }
+func (a secrets) all() [][]byte {
+	return append(append(append([][]byte{}, a.priv...), a.sym...), a.hm...)
+}
 
 func shares(a, b secrets) bool {
 	for _, x := range a.all() {
@@ -529,6 +531,14 @@ func TestReplay(t *testing.T) {
 			return CheckTokens(c)
 		},
 		"TestCrossSessions": replaySess,
+		"TestTranslatorConcurrent": func(raw json.RawMessage) hx.Vs {
+			var c ConcCase
+			if err := json.Unmarshal(raw, &c); err != nil {
+				return hx.Vs{{Sig: "harness:decode", Msg: err.Error()}}
+			}
+			vs, _ := CheckConcurrent(c)
+			return vs
+		},
 		"TestTLSPeers": func(raw json.RawMessage) hx.Vs {
 			var c PeersCase
 			if err := json.Unmarshal(raw, &c); err != nil {
